@@ -5,9 +5,17 @@ correspondence : (a) raw kernels rs_direct_interpolation_pass1/2, rs_classical_i
                  (rebuilt from the working tree) vs the array models Model/KNum.lean (`direct`) and Model/C11.lean
                  (`c11_*`) AND vs the proof-side whole-operator definitions of Proofs/C11Kernel.lean (`c11_p_*`, the
                  ones the theorems are about); (b) the public functions of pyamg/classical/interpolate.py vs the
-                 same models composed as the wrappers compose them (`c11_api_*`).  Index arrays exact; values
+                 same models composed as the wrappers compose them (`c11_api_*`, and `ext_c11_api_*`: the composed
+                 models Glue.apiClassical / Glue.apiDirect of Model/ExtGlue.lean the end-to-end theorems are about);
+                 (c) the SciPy glue models (`ext_glue_*`: eliminate_zeros, sort_indices, sum_duplicates, multiply in
+                 both SciPy branches, the abs/scale/eliminate_zeros tail of classical_strength_of_connection) vs SciPy
+                 itself, array for array, on raw CSR input (unsorted, duplicates, stored zeros) and on the API path.
+                 Index arrays exact; values
                  against exact rationals within 1e-9 relative (the inputs are small integers / dyadic rationals,
                  the kernels divide); a division by zero of the model must be inf/nan in the code.
+storage order  : the cases with a dense A are also run on non-canonical CSR / BSR storage of A and, separately, of the
+                 strength matrices (rows permuted, diagonal first, descending; has_sorted_indices False or unset):
+                 same models on the arrays as stored, same dense oracles.
 search         : every P / R returned by the real code is judged by an independent dense NumPy/Fraction oracle
                  of the property itself (identity rows, support, row sums, published formulas (direct, eq. (8),
                  eq. (9)), one-point / injection structure, identity block and (R A)[i, j] = 0 for AIR incl. BSR
@@ -33,7 +41,15 @@ META = {
             'pattern inside the pattern of A, stored zeros only as non-connections. splittings: random 0/1 with density '
             '.2/.5/.8, all-C, all-F, repaired to the common-C condition, library RS/PMIS/CLJP, and every 0/1 vector for n <= 4. '
             'non-trivial = the splitting has a C- and an F-point and the F-rows have strong connections; distinct = distinct '
-            '(routine, options, A, S, splitting)',
+            '(routine, options, A, S, splitting). glue cases (SciPy glue models vs SciPy): random dyadic CSR pairs with unsorted '
+            'rows, duplicate columns and stored zeros, n = 1..12 / 1..30; non-trivial = the matrix has a stored zero, a duplicate '
+            'or an unsorted row. storage order: every case with a dense A (interpolation kernels and public functions, theta path, '
+            'BSR one-point / injection, AIR kernels, local_air CSR and BSR, QR and GMRES local solves) is run with probability 0.6 on '
+            'a non-canonical storage of the same matrices: rows of A and, independently, of the strength matrices (S for the kernels, '
+            'the C handed to the public functions, the pattern handed to the AIR kernels) stored sorted / randomly permuted / '
+            'diagonal first / descending, has_sorted_indices truthfully False or left for SciPy to determine, a fresh object per '
+            'public call; the exhaustive small splittings run in both a canonical and a non-canonical storage. The dense oracles '
+            'judge these cases exactly as the canonical ones',
     'search_only': ['local_air on BSR input and with GMRES local solves (maxiter >= local size): judged by the dense oracle '
                     '(identity block, (R A) = 0 on the neighbourhood within 1e-8) only, no Lean model',
                     'one_point / injection on BSR and CSC input, local_air on CSC input: dense oracle only',
@@ -44,9 +60,13 @@ META = {
     'partial': ['air_row_spec is about the model row with an exact, verified local solve; that the least-squares / GMRES solve of '
                 'the code is exact is a hypothesis checked per instance (|R - R_exact| <= 1e-9 relative on strictly diagonally '
                 'dominant local blocks)',
-                'the array models of rs_classical_interpolation_pass2, remove_strong_FF_connections, one_point_interpolation '
-                'are not proved equal to the proof-side operators (both are compared with the code on every input); proved '
-                'links: coarse map, pass-1 row pointer and sizes, injection arrays'],
+                'the array models of the kernels are proved to refine the proof-side operators (extension E6) and the public '
+                'functions direct_interpolation / classical_interpolation (theta None or given) are one composed model each, '
+                'SciPy glue included, proved against directP / classicalP / classicalModP (extension E30, api_*_end_to_end) '
+                'for canonical A and C, columns below n and a strength matrix inside the non-zero pattern of A; weights are '
+                'related wherever the kernel does not divide by zero (the *_guard_defined theorems say when that is); '
+                'non-canonical input of the public functions (SciPy general multiply branch) has dense-meaning theorems only '
+                '(glue_multiply_dense), one_point / injection / local_air wrappers are not composed'],
     'assumptions': ['exact-field model: values compared within 1e-9 relative on well-scaled small-integer inputs',
                     'the 1e-15 relative drop test of rs_classical_interpolation_pass2 never drops a non-zero coupling '
                     '(hypothesis hkeep of the row-sum theorems; true for the generated inputs, whose non-zero couplings '
@@ -57,12 +77,20 @@ META = {
                     'strength matrices inside the pattern of A',
                     'AIR: (R A)[i, j] = 0 is checked on the documented neighbourhood of row i (strongly connected F-points '
                     'within `degree`), which contains the pattern of the returned row (local_air eliminates zeros)'],
-    'trusted_extra': ['Driver/C11.lean strengthWithA / dropZeros: SciPy eliminate_zeros() and C.multiply(A) on canonical CSR as '
-                      'composed by the wrappers (validated by the c11_api_* correspondence)',
+    'trusted_extra': ['Driver/C11.lean strengthWithA / dropZeros (ops c11_api_*): driver-local second opinion only, written for canonical '
+                      'input: on a non-canonical storage it is fed the sorted copies and compared with the code row by row as dense '
+                      'meanings, as are the proof-side operators c11_p_* on the public-function path (every other model, the composed '
+                      'glue ext_c11_api_* and the AIR models included, gets the arrays exactly as stored); the glue the '
+                      'theorems are about is Model/ExtGlue.lean (ops ext_glue_*, ext_c11_api_*; theorems glue_* and '
+                      'api_*_end_to_end of Props/C11.lean), compared with SciPy and with the public functions on every run',
+                      'sort_indices is modelled as a stable insertion sort: SciPy runs std::sort, which is stable only on rows '
+                      'of at most 16 entries; rows with duplicate columns and more than 16 entries are compared after '
+                      'sum_duplicates only',
                       'guard zones: the value-pass kernels run on padded copies of their output arrays (harness only)'],
 }
 
 EPS = Fr(1e-15)          # exact value of the literal 1e-15
+TINY64 = enc_rat(Fr(float(np.finfo(np.float64).tiny)))     # numeric_limits<double>::min()
 TOL = 1e-9
 AIR_TOL = 1e-8
 THETAS = (0.0, 0.25, 0.5, 0.75, 1.0)
@@ -267,6 +295,80 @@ def s_with_values(A, M, rng=None, shuffle=False):
             S.indices[a:b] = S.indices[a:b][p]
             S.data[a:b] = S.data[a:b][p]
     return S
+
+
+# storage order inside the rows (the property is about the matrices, not about how CSR / BSR happens to store them):
+# 'perm' random permutation of every row, 'diagfirst' diagonal entry first (rows without a stored diagonal: last entry
+# first), 'reversed' descending columns. flag 'false' = has_sorted_indices set to False where that is the truth,
+# 'unset' = the attribute is left for SciPy to determine.
+LAYOUTS = ('sorted', 'perm', 'diagfirst', 'reversed')
+
+
+def gen_layout(rng, p_sorted=0.4):
+    """storage layout of the operator ('A') and, separately, of the strength matrices ('S') of one case; None = canonical"""
+    if rng.random() < p_sorted:
+        return None
+    return {'A': str(rng.choice(LAYOUTS)), 'Af': str(rng.choice(['unset', 'false'])), 'S': str(rng.choice(LAYOUTS)),
+            'Sf': str(rng.choice(['unset', 'false'])), 'seed': int(rng.integers(2**31))}
+
+
+def relayout(X, layout, which, salt=0):
+    """the same CSR / BSR matrix (int32 indices) stored in the row order layout[which]; deterministic in layout['seed']"""
+    mode = 'sorted' if layout is None else layout[which]
+    if mode == 'sorted':
+        return X
+    prng = np.random.default_rng([int(layout['seed']), salt])
+    ip, ix, dx = _i32(X.indptr), _i32(X.indices).copy(), X.data.copy()
+    for i in range(len(ip) - 1):
+        a, b = int(ip[i]), int(ip[i + 1])
+        if b - a < 2:
+            continue
+        cols = ix[a:b]
+        if mode == 'perm':
+            p = prng.permutation(b - a)
+        elif mode == 'reversed':
+            p = np.argsort(cols, kind='stable')[::-1]
+        else:
+            o = np.argsort(cols, kind='stable')
+            first = [t for t in o if cols[t] == i] or [o[-1]]
+            p = np.array(first + [t for t in o if t not in first])
+        ix[a:b] = cols[p]
+        dx[a:b] = dx[a:b][p]
+    return _rebuild(X, ip.copy(), ix, dx, layout[which + 'f'])
+
+
+def _rebuild(X, ip, ix, dx, flag):
+    if X.format == 'bsr':
+        Y = sp.bsr_array((dx, ix, ip), shape=X.shape, blocksize=X.blocksize)
+        Y.indptr, Y.indices = _i32(Y.indptr), _i32(Y.indices)
+    else:
+        Y = gen.csr_from_arrays(X.shape[0], ip, ix, dx, m=X.shape[1])
+    if flag == 'false' and any(np.any(np.diff(ix[ip[i]:ip[i + 1]]) < 0) for i in range(len(ip) - 1)):
+        Y.has_sorted_indices = False
+    return Y
+
+
+def fresh(X, layout, which):
+    """a new object with copies of X's arrays and the same truthful flag: one per public call, so that a call which sorts or
+    flags its argument in place cannot canonicalise the input of the next one"""
+    if layout is None or layout[which] == 'sorted':
+        return X
+    return _rebuild(X, X.indptr.copy(), X.indices.copy(), X.data.copy(), layout[which + 'f'])
+
+
+def sorted_copy(X):
+    Y = gen.csr_from_arrays(X.shape[0], X.indptr.copy(), X.indices.copy(), X.data.copy(), m=X.shape[1])
+    Y.has_sorted_indices = False
+    Y.sort_indices()
+    return Y
+
+
+def no_dups(X):
+    return all(len(set(X.indices[X.indptr[i]:X.indptr[i + 1]].tolist())) == X.indptr[i + 1] - X.indptr[i] for i in range(X.shape[0]))
+
+
+def sort_rows(rows):
+    return [sorted(r, key=lambda cw: cw[0]) for r in rows]
 
 
 # ------------------------------------------------------------------------------------------------
@@ -480,6 +582,25 @@ def cmp_arrays(reply, pp, pj, px):
     return len(toks) == len(px) and all(val_ok(t, x) for t, x in zip(toks, px))
 
 
+def cmp_arrays_dense(reply, pp, pj, px):
+    """reply 'pp;pj;px' of a model that was fed the canonical (sorted) copy of the input, against the arrays the code
+    produced from another storage order: same row pointer, rows equal as dense meanings"""
+    parts = reply.split(';')
+    if len(parts) != 3 or parts[0] != enc_ints(pp):
+        return False
+    mj = [] if parts[1] == '-' else [int(t) for t in parts[1].split(',')]
+    mx = [] if parts[2] == '-' else parts[2].split(',')
+    if len(mj) != len(pj) or len(mx) != len(px):
+        return False
+    for i in range(len(pp) - 1):
+        a, b = int(pp[i]), int(pp[i + 1])
+        mr = sorted(zip(mj[a:b], mx[a:b]), key=lambda cw: cw[0])
+        ir = sorted(zip([int(c) for c in pj[a:b]], px[a:b]), key=lambda cw: cw[0])
+        if [c for c, _ in mr] != [c for c, _ in ir] or not all(val_ok(t, x) for (_, t), (_, x) in zip(mr, ir)):
+            return False
+    return True
+
+
 def parse_rows(reply):
     if reply == 'none':
         return []
@@ -489,13 +610,16 @@ def parse_rows(reply):
     return out
 
 
-def cmp_rows(reply, rows, skip_nonfinite=True):
+def cmp_rows(reply, rows, skip_nonfinite=True, unordered=False):
     """proof-side rows (exact, x/0 = 0 convention) against implementation rows; rows where the code produced
-    inf/nan are outside the proof-side model (the array model must say `inf` there) and skipped"""
+    inf/nan are outside the proof-side model (the array model must say `inf` there) and skipped. unordered: the model
+    was fed another storage order of the same matrices -- compare the rows as dense meanings (sorted by column)"""
     try:
         m = parse_rows(reply)
     except Exception:
         return False
+    if unordered:
+        m, rows = sort_rows(m), sort_rows(rows)
     if len(m) != len(rows):
         return False
     for mr, ir in zip(m, rows):
@@ -508,6 +632,36 @@ def cmp_rows(reply, rows, skip_nonfinite=True):
             if c1 != c2 or not val_ok(t, w):
                 return False
     return True
+
+
+def _show(A):
+    return f'{enc_ints(A.indptr)};{enc_ints(A.indices)};{enc_rats(A.data)}'
+
+
+def _cp(A):
+    return sp.csr_array((A.data.copy(), A.indices.copy(), A.indptr.copy()), shape=A.shape)
+
+
+def api_strength_scipy(Acsr, Cmat, split, modified):
+    """the glue of classical_interpolation(theta=None) with SciPy and the rebuilt kernel, step by step"""
+    from pyamg import amg_core
+    C = _cp(Cmat)
+    C.eliminate_zeros()
+    if modified:
+        amg_core.remove_strong_FF_connections(Acsr.shape[0], C.indptr, C.indices, C.data, split)
+    C.eliminate_zeros()
+    C.data[:] = 1.0
+    return sp.csr_array(C.multiply(Acsr))
+
+
+def cmp_csr(reply, A, exact=True):
+    parts = reply.split(';')
+    if len(parts) != 3 or parts[0] != enc_ints(A.indptr) or parts[1] != enc_ints(A.indices):
+        return False
+    if exact:
+        return parts[2] == enc_rats(A.data)
+    toks = [] if parts[2] == '-' else parts[2].split(',')
+    return len(toks) == len(A.data) and all(val_ok(t, x) for t, x in zip(toks, A.data))
 
 
 class Batch:
@@ -623,23 +777,31 @@ def guard(pj, px, nnz, name, viol):
     return False
 
 
-def interp_case(ctx, B, A, M, split, tags, S=None, Acsr=None, api=True, onept_vals=None):
-    """A dense (canonical) or Acsr given (raw, possibly unsorted/duplicates: kernels only); M strength mask"""
+def interp_case(ctx, B, A, M, split, tags, S=None, Acsr=None, api=True, onept_vals=None, layout=None):
+    """A dense (canonical) or Acsr given (raw, possibly unsorted/duplicates: kernels only); M strength mask;
+    layout: storage order of the rows of A / of the strength matrices (dense A only; the oracles do not see it)"""
     from pyamg import amg_core
     from pyamg.classical import interpolate as IP
     n = A.shape[0] if A is not None else Acsr.shape[0]
     canonical = Acsr is None
     if canonical:
-        Acsr = _csr(A)
+        Acsr = relayout(_csr(A), layout, 'A')
         if S is None:
             S = s_with_values(A, M)
+        S = relayout(S, layout, 'S', 1)
+        if onept_vals is not None:
+            onept_vals = relayout(onept_vals, layout, 'S', 2)
+        if layout is not None:
+            tags = tags + ['layout:A=' + layout['A'] + '/' + layout['Af'], 'layout:S=' + layout['S'] + '/' + layout['Sf']]
+    else:
+        layout = None
     split = _i32(split)
     nF = int(n - split.sum())
     strongF = canonical and any(M[i, j] for i in range(n) for j in range(n) if split[i] == 0 and j != i)
     nontriv = bool(0 < nF < n and (strongF or not canonical))
     case0 = {'kind': 'interp', 'n': n, 'Ap': Acsr.indptr.tolist(), 'Aj': Acsr.indices.tolist(), 'Ax': Acsr.data.tolist(),
              'Sp': S.indptr.tolist(), 'Sj': S.indices.tolist(), 'Sx': S.data.tolist(), 'split': split.tolist(),
-             'canonical': canonical, 'tags': tags}
+             'canonical': canonical, 'tags': tags, 'layout': layout}
     keybase = (Acsr.indptr.tobytes(), Acsr.indices.tobytes(), Acsr.data.tobytes(), S.indptr.tobytes(), S.indices.tobytes(),
                split.tobytes())
     hA, hS, hs = _hdr(Acsr), _hdr0(S), enc_ints(split)
@@ -729,7 +891,7 @@ def interp_case(ctx, B, A, M, split, tags, S=None, Acsr=None, api=True, onept_va
     Cm = np.zeros((n, n), dtype=bool)
     for i in range(n):
         Cm[i, Cv.indices[Cv.indptr[i]:Cv.indptr[i + 1]]] = True
-    if Cv.has_canonical_format:
+    if no_dups(Cv):
         e = judge_onepoint(Cd, Cm, split, rows_o, True)
         if e:
             viol(f'one_point_interpolation kernel: {e}', routine='k_onepoint')
@@ -741,14 +903,21 @@ def interp_case(ctx, B, A, M, split, tags, S=None, Acsr=None, api=True, onept_va
     zeros = (A != 0) & ~M & (ctx.np_rng.random((n, n)) < 0.3) if ctx.evaluations % 3 == 0 else np.zeros((n, n), dtype=bool)
     Cmat = _csr(np.where(zeros, 7.0, Cvals))                                         # ... and stored zeros are no connections
     Cmat.data[Cmat.data == 7.0] = 0.0
+    Cmat = relayout(Cmat, layout, 'S', 3)
+    unord = layout is not None
+    fA, fC = (lambda: fresh(Acsr, layout, 'A')), (lambda: fresh(Cmat, layout, 'S'))
     if zeros.any():
         ctx.feat('strength:stored-zeros')
     hC = _hdr0(Cmat)
+    # the driver-local second opinion (c11_api_*) is written for canonical input: it gets the sorted copies and is compared with
+    # what the code made of the stored order as dense meanings; the composed glue models (ext_c11_api_*) get the arrays as stored
+    cmpa = cmp_arrays_dense if unord else cmp_arrays
+    hA0, hC0 = (_hdr(sorted_copy(Acsr)), _hdr0(sorted_copy(Cmat))) if unord else (hA, hC)
     # direct / classical with theta=None
-    calls = [('direct', None, lambda: IP.direct_interpolation(Acsr, Cmat, split)),
-             ('classical', False, lambda: IP.classical_interpolation(Acsr, Cmat, split, modified=False)),
-             ('modified', True, lambda: IP.classical_interpolation(Acsr, Cmat, split, modified=True)),
-             ('modified', 'default', lambda: IP.classical_interpolation(Acsr, Cmat, split))]
+    calls = [('direct', None, lambda: IP.direct_interpolation(fA(), fC(), split)),
+             ('classical', False, lambda: IP.classical_interpolation(fA(), fC(), split, modified=False)),
+             ('modified', True, lambda: IP.classical_interpolation(fA(), fC(), split, modified=True)),
+             ('modified', 'default', lambda: IP.classical_interpolation(fA(), fC(), split))]
     for routine, modified, f in calls:
         name = 'direct_interpolation' if routine == 'direct' else f'classical_interpolation(modified={modified})'
         reg('api_' + routine, modified=str(modified))
@@ -761,15 +930,20 @@ def interp_case(ctx, B, A, M, split, tags, S=None, Acsr=None, api=True, onept_va
         rows = csr_rows(n, P.indptr, P.indices, P.data) if P.indptr.shape[0] == n + 1 else []
         impl = f'{enc_ints(P.indptr)};{enc_ints(P.indices)};{P.data.tolist()}'
         if routine == 'direct':
-            B.add('c11_api_direct', f'c11_api_direct {hA} {hC} {hs}',
+            B.add('c11_api_direct', f'c11_api_direct {hA0} {hC0} {hs}',
+                  lambda o, P=P: cmpa(o, P.indptr, P.indices, P.data), {**case0, 'api': name}, impl)
+            B.add('ext_c11_api_direct', f'ext_c11_api_direct {hA} {hC} {hs}',
                   lambda o, P=P: cmp_arrays(o, P.indptr, P.indices, P.data), {**case0, 'api': name}, impl)
-            B.add('c11_p_direct(api)', f'c11_p_direct {hA} {hS} {hs}', lambda o, r=rows: cmp_rows(o, r), {**case0, 'api': name}, impl)
+            B.add('c11_p_direct(api)', f'c11_p_direct {hA} {hS} {hs}', lambda o, r=rows: cmp_rows(o, r, unordered=unord),
+                  {**case0, 'api': name}, impl)
         else:
             md = '0' if modified is False else '1'
-            B.add('c11_api_classical', f'c11_api_classical {enc_rat(EPS)} {md} {hA} {hC} {hs}',
+            B.add('c11_api_classical', f'c11_api_classical {enc_rat(EPS)} {md} {hA0} {hC0} {hs}',
+                  lambda o, P=P: cmpa(o, P.indptr, P.indices, P.data), {**case0, 'api': name}, impl)
+            B.add('ext_c11_api_classical', f'ext_c11_api_classical {enc_rat(EPS)} {md} {hA} {hC} {hs}',
                   lambda o, P=P: cmp_arrays(o, P.indptr, P.indices, P.data), {**case0, 'api': name}, impl)
             B.add('c11_p_classical(api)', f'c11_p_classical {enc_rat(EPS)} {md} {hA} {hS} {hs}',
-                  lambda o, r=rows: cmp_rows(o, r), {**case0, 'api': name}, impl)
+                  lambda o, r=rows: cmp_rows(o, r, unordered=unord), {**case0, 'api': name}, impl)
         judge(routine, rows, shape=P.shape, call=name, api=True)
         if len(rows) == n and P.shape == (n, int(split.sum())):
             skip_rows = routine == 'classical'
@@ -777,14 +951,19 @@ def interp_case(ctx, B, A, M, split, tags, S=None, Acsr=None, api=True, onept_va
             if bad and not (skip_rows and rows_lack_common_c(A, M, split, bad[0])):
                 viol(f'{name}: (P 1)[{bad[0]}] = {bad[1]!r} on a zero-row-sum M-matrix row with a strong C-point: constants '
                      f'are not interpolated exactly', routine=routine, api=True, call=name)
+    # the strength matrix the wrapper hands to the kernels: SciPy glue step by step vs the composed glue model
+    for modified in (False, True):
+        Sg = api_strength_scipy(Acsr, Cmat, split, modified)
+        B.add('ext_c11_api_strength', f'ext_c11_api_strength {"1" if modified else "0"} {hA} {hC} {hs}',
+              lambda o, Sg=Sg: cmp_csr(o, Sg), {**case0, 'api': f'glue(modified={modified})'}, _show(Sg))
     # one-point through the public function (by value / by pattern)
     cmap0 = np.concatenate([[0], np.cumsum(split)])
     for by_val in (False, True):
         reg('api_onepoint', by_val=by_val)
-        Cgiven = Cv if Cv.has_canonical_format else s_with_values(A, M)     # strength handed to the function
+        Cgiven = Cv if no_dups(Cv) else s_with_values(A, M)                 # strength handed to the function
         Cop = Acsr if by_val else Cgiven                                    # what the rule must be applied to
         try:
-            P = sp.csr_array(IP.one_point_interpolation(Acsr, Cgiven, split, by_val=by_val))
+            P = sp.csr_array(IP.one_point_interpolation(fA(), fresh(Cgiven, layout, 'S'), split, by_val=by_val))
             rows = csr_rows(n, P.indptr, P.indices, P.data)
             Cd = Cop.toarray()
             Cm = (Cd != 0)
@@ -802,7 +981,7 @@ def interp_case(ctx, B, A, M, split, tags, S=None, Acsr=None, api=True, onept_va
     # injection
     reg('api_injection')
     try:
-        P = sp.csr_array(IP.injection_interpolation(Acsr, split))
+        P = sp.csr_array(IP.injection_interpolation(fA(), split))
         rows = csr_rows(n, P.indptr, P.indices, P.data)
         cmap = np.concatenate([[0], np.cumsum(split)])
         e = None
@@ -835,17 +1014,28 @@ def interp_case(ctx, B, A, M, split, tags, S=None, Acsr=None, api=True, onept_va
             viol(f'injection / one_point_interpolation on CSC input raised {type(ex).__name__}: {ex}', routine='api_formats')
 
 
-def theta_case(ctx, B, A, split, theta, norm, tags):
+def theta_case(ctx, B, A, split, theta, norm, tags, layout=None):
     """public functions with theta given: the strength matrix must be recomputed from (theta, norm), C ignored"""
     from pyamg.classical import interpolate as IP
     n = A.shape[0]
-    Acsr = _csr(A)
+    Acsr = relayout(_csr(A), layout, 'A')
     M = strength_mask(A, theta, norm)
     S = s_with_values(A, M)
     decoy = _csr(((A != 0) & ~M & ~np.eye(n, dtype=bool)).astype(float) + np.eye(n))     # complement pattern as C
+    decoy = relayout(decoy, layout, 'S', 1)
+    unord = layout is not None
+    if unord:
+        ctx.feat('layout:A=' + layout['A'] + '/' + layout['Af'])
     hA, hS, hs = _hdr(Acsr), _hdr0(S), enc_ints(split)
-    case0 = {'kind': 'theta', 'A': A.tolist(), 'split': split.tolist(), 'theta': theta, 'norm': norm, 'tags': tags}
+    case0 = {'kind': 'theta', 'A': A.tolist(), 'split': split.tolist(), 'theta': theta, 'norm': norm, 'tags': tags, 'layout': layout}
     nontriv = bool(0 < split.sum() < n)
+    try:
+        from pyamg.strength import classical_strength_of_connection
+        Spub = sp.csr_array(classical_strength_of_connection(fresh(Acsr, layout, 'A'), theta=theta, norm=norm))
+        B.add('ext_c11_api_soc', f'ext_c11_api_soc {TINY64} {enc_rat(theta)} {norm} {hA}',
+              lambda o, W=Spub: cmp_csr(o, W, False), {**case0, 'api': 'classical_strength_of_connection'}, _show(Spub))
+    except Exception as ex:
+        ctx.violation(f'classical_strength_of_connection(theta={theta}, norm={norm!r}) raised {type(ex).__name__}: {ex}', case0)
     for routine, modified in (('direct', None), ('classical', False), ('modified', True)):
         name = (f'direct_interpolation(theta={theta}, norm={norm!r})' if routine == 'direct' else
                 f'classical_interpolation(theta={theta}, norm={norm!r}, modified={modified})')
@@ -853,9 +1043,10 @@ def theta_case(ctx, B, A, split, theta, norm, tags):
         ctx.feat('routine:api_theta_' + routine)
         try:
             if routine == 'direct':
-                P = IP.direct_interpolation(Acsr, decoy, split, theta=theta, norm=norm)
+                P = IP.direct_interpolation(fresh(Acsr, layout, 'A'), fresh(decoy, layout, 'S'), split, theta=theta, norm=norm)
             else:
-                P = IP.classical_interpolation(Acsr, decoy, split, theta=theta, norm=norm, modified=modified)
+                P = IP.classical_interpolation(fresh(Acsr, layout, 'A'), fresh(decoy, layout, 'S'), split, theta=theta, norm=norm,
+                                               modified=modified)
         except Exception as ex:
             ctx.violation(f'{name} raised {type(ex).__name__}: {ex}', {**case0, 'routine': routine})
             continue
@@ -863,7 +1054,13 @@ def theta_case(ctx, B, A, split, theta, norm, tags):
         rows = csr_rows(n, P.indptr, P.indices, P.data)
         op = 'c11_p_direct' if routine == 'direct' else 'c11_p_classical'
         pre = '' if routine == 'direct' else f'{enc_rat(EPS)} {"1" if modified else "0"} '
-        B.add(op + '(theta)', f'{op} {pre}{hA} {hS} {hs}', lambda o, r=rows: cmp_rows(o, r), {**case0, 'api': name}, str(rows)[:2000])
+        B.add(op + '(theta)', f'{op} {pre}{hA} {hS} {hs}', lambda o, r=rows: cmp_rows(o, r, unordered=unord), {**case0, 'api': name},
+              str(rows)[:2000])
+        # the whole theta path as one model: strength kernel, its SciPy tail, the glue, pass 1 / pass 2 (Model/ExtGlue.lean)
+        xop = 'ext_c11_api_direct_theta' if routine == 'direct' else 'ext_c11_api_classical_theta'
+        B.add(xop, f'{xop} {pre}{TINY64} {enc_rat(theta)} {norm} {hA} {hs}',
+              lambda o, P=P: cmp_arrays(o, P.indptr, P.indices, P.data), {**case0, 'api': name},
+              f'{enc_ints(P.indptr)};{enc_ints(P.indices)};{P.data.tolist()}')
         e = judge_interp(routine, A, M, split, rows, P.shape)
         if e:
             ctx.violation(f'{name}: {e}', {**case0, 'routine': routine})
@@ -873,20 +1070,23 @@ def theta_case(ctx, B, A, split, theta, norm, tags):
 # part B: BSR one-point / injection
 # ------------------------------------------------------------------------------------------------
 
-def bsr_case(ctx, A, M, split, bs):
+def bsr_case(ctx, A, M, split, bs, layout=None):
     from pyamg.classical import interpolate as IP
     n = A.shape[0]
     rng = ctx.np_rng
     Ab = sp.bsr_array(sp.kron(_csr(A), np.ones((bs, bs))).tobsr(blocksize=(bs, bs)))
     Ab.indptr, Ab.indices = _i32(Ab.indptr), _i32(Ab.indices)
-    case0 = {'kind': 'bsr', 'A': A.tolist(), 'M': M.astype(int).tolist(), 'split': split.tolist(), 'bs': bs}
+    Ab = relayout(Ab, layout, 'A')
+    if layout is not None:
+        ctx.feat('layout:bsr:A=' + layout['A'] + ',S=' + layout['S'])
+    case0 = {'kind': 'bsr', 'A': A.tolist(), 'M': M.astype(int).tolist(), 'split': split.tolist(), 'bs': bs, 'layout': layout}
     nontriv = bool(0 < split.sum() < n)
     cmap = np.concatenate([[0], np.cumsum(split)])
     nc = int(split.sum())
     ctx.case(key=_key('bsr_inj', A.tobytes(), split.tobytes(), bs), nontrivial=nontriv)
     ctx.feat('routine:api_injection_bsr')
     try:
-        P = IP.injection_interpolation(Ab, split)
+        P = IP.injection_interpolation(fresh(Ab, layout, 'A'), split)
         D = dense(P)
         want = np.zeros((n * bs, nc * bs))
         for i in range(n):
@@ -899,9 +1099,9 @@ def bsr_case(ctx, A, M, split, bs):
     ctx.case(key=_key('bsr_one', A.tobytes(), M.tobytes(), split.tobytes(), bs), nontrivial=nontriv)
     ctx.feat('routine:api_onepoint_bsr')
     vals = rng.integers(1, 4, size=(n, n)).astype(float)
-    Cb = _csr(np.where(M, vals, 0.0))
+    Cb = relayout(_csr(np.where(M, vals, 0.0)), layout, 'S', 1)
     try:
-        P = IP.one_point_interpolation(Ab, Cb, split)
+        P = IP.one_point_interpolation(fresh(Ab, layout, 'A'), fresh(Cb, layout, 'S'), split)
         D = dense(P)
         Cd = Cb.toarray()
         e = None
@@ -938,17 +1138,20 @@ def gen_air_matrix(rng, nmax):
     return A.astype(float), kind
 
 
-def air_case(ctx, B, A, split, theta, norm, degree, tags, raw_mask=None):
+def air_case(ctx, B, A, split, theta, norm, degree, tags, raw_mask=None, layout=None):
     from pyamg import amg_core
     from pyamg.classical import interpolate as IP
     from pyamg.strength import classical_strength_of_connection
     n = A.shape[0]
-    Acsr = _csr(A)
+    Acsr = relayout(_csr(A), layout, 'A')
+    if layout is not None:
+        tags = tags + ['layout:air:A=' + layout['A'] + '/' + layout['Af'], 'layout:air:S=' + layout['S'] + '/' + layout['Sf']]
     split = _i32(split)
     cpts = _i32(np.where(split == 1)[0])
     nc = len(cpts)
     M = strength_mask(A, theta, norm)
-    case0 = {'kind': 'air', 'A': A.tolist(), 'split': split.tolist(), 'theta': theta, 'norm': norm, 'degree': degree, 'tags': tags}
+    case0 = {'kind': 'air', 'A': A.tolist(), 'split': split.tolist(), 'theta': theta, 'norm': norm, 'degree': degree, 'tags': tags,
+             'layout': layout}
     nontriv = bool(0 < nc < n and any(air_neighbourhood(M, split, int(c), degree) for c in cpts))
     keyb = (A.tobytes(), split.tobytes(), theta, norm, degree)
     hs = enc_ints(split)
@@ -988,8 +1191,11 @@ def air_case(ctx, B, A, split, theta, norm, degree, tags, raw_mask=None):
         return False
 
     # ---- raw kernels on the library's strength matrix (what local_air hands them), then on an arbitrary pattern
-    C = classical_strength_of_connection(Acsr, theta=theta, block=False, norm=norm)
+    C = classical_strength_of_connection(fresh(Acsr, layout, 'A'), theta=theta, block=False, norm=norm)
     C = gen.csr_from_arrays(n, C.indptr, C.indices, C.data)
+    if layout is not None:           # the strength matrix handed to the raw kernels gets its own storage order, independent of A's
+        C.sort_indices()
+        C = relayout(C, layout, 'S', 1)
     Mlib = np.zeros((n, n), dtype=bool)
     for i in range(n):
         Mlib[i, C.indices[C.indptr[i]:C.indptr[i + 1]]] = True
@@ -997,7 +1203,7 @@ def air_case(ctx, B, A, split, theta, norm, degree, tags, raw_mask=None):
         ctx.feat('strength_oracle_differs_from_library')     # C14's business; the AIR oracle then uses the library pattern
     overflow = raw(C, M if np.array_equal(Mlib, M) else Mlib, 'library strength')
     if raw_mask is not None:
-        overflow = raw(_csr(raw_mask.astype(float)), raw_mask, 'arbitrary pattern') or overflow
+        overflow = raw(relayout(_csr(raw_mask.astype(float)), layout, 'S', 2), raw_mask, 'arbitrary pattern') or overflow
     if overflow:
         return
     # ---- public function, CSR: direct and GMRES local solves
@@ -1007,7 +1213,7 @@ def air_case(ctx, B, A, split, theta, norm, degree, tags, raw_mask=None):
                  sample=({'routine': name, 'n': n, 'nc': nc} if ctx.evaluations % 499 == 0 else None))
         ctx.feat('routine:local_air' + ('_gmres' if use_gmres else ''))
         try:
-            R = IP.local_air(Acsr, split, theta=theta, norm=norm, degree=degree, use_gmres=use_gmres,
+            R = IP.local_air(fresh(Acsr, layout, 'A'), split, theta=theta, norm=norm, degree=degree, use_gmres=use_gmres,
                              maxiter=max(10, maxloc + 1), precondition=precond)
             e = judge_air(A, M, split, dense(R), degree)
             if e:
@@ -1027,7 +1233,7 @@ def air_case(ctx, B, A, split, theta, norm, degree, tags, raw_mask=None):
             ctx.violation(f'local_air(CSC input) raised {type(ex).__name__}: {ex}', {**case0, 'format': 'csc'})
 
 
-def air_bsr_case(ctx, A, split, theta, degree, bs):
+def air_bsr_case(ctx, A, split, theta, degree, bs, layout=None):
     """block matrix: scalar pattern of A, random strictly dominant blocks; norm='abs' (max |entry| of the block)"""
     from pyamg.classical import interpolate as IP
     rng = ctx.np_rng
@@ -1053,9 +1259,12 @@ def air_bsr_case(ctx, A, split, theta, degree, bs):
         Bn[i, i] = np.abs(D[i * bs:(i + 1) * bs, i * bs:(i + 1) * bs]).max()
     Ab = sp.bsr_array(sp.csr_array(D).tobsr(blocksize=(bs, bs)))
     Ab.indptr, Ab.indices = _i32(Ab.indptr), _i32(Ab.indices)
+    Ab = relayout(Ab, layout, 'A')
+    if layout is not None:
+        ctx.feat('layout:air_bsr:A=' + layout['A'] + '/' + layout['Af'])
     M = strength_mask(Bn, theta, 'abs')
     split = _i32(split)
-    case0 = {'kind': 'air_bsr', 'D': D.tolist(), 'split': split.tolist(), 'theta': theta, 'degree': degree, 'bs': bs}
+    case0 = {'kind': 'air_bsr', 'D': D.tolist(), 'split': split.tolist(), 'theta': theta, 'degree': degree, 'bs': bs, 'layout': layout}
     cpts = np.where(split == 1)[0]
     maxloc = max([len(air_neighbourhood(M, split, int(c), 2)) for c in cpts] + [0]) * bs
     for use_gmres, precond in ((False, True), (True, False), (True, True)):
@@ -1063,8 +1272,8 @@ def air_bsr_case(ctx, A, split, theta, degree, bs):
         ctx.case(key=_key('air_bsr', D.tobytes(), split.tobytes(), theta, degree, use_gmres, precond), nontrivial=bool(0 < len(cpts) < n))
         ctx.feat('routine:local_air_bsr' + ('_gmres' if use_gmres else ''))
         try:
-            R = IP.local_air(Ab, split, theta=theta, norm='abs', degree=degree, use_gmres=use_gmres, maxiter=max(10, maxloc + 1),
-                             precondition=precond)
+            R = IP.local_air(fresh(Ab, layout, 'A'), split, theta=theta, norm='abs', degree=degree, use_gmres=use_gmres,
+                             maxiter=max(10, maxloc + 1), precondition=precond)
             e = judge_air(D, M, split, dense(R), degree, bs=bs)
             if e:
                 ctx.violation(f'{name}: {e}', {**case0, 'use_gmres': use_gmres, 'precondition': precond})
@@ -1123,6 +1332,8 @@ def all_small(ctx, B, nmax):
             for bits in range(2 ** n):
                 split = _i32([(bits >> i) & 1 for i in range(n)])
                 interp_case(ctx, B, A, M, split, ['exhaustive-splittings'])
+                if n > 1:
+                    interp_case(ctx, B, A, M, split, ['exhaustive-splittings'], layout=gen_layout(ctx.np_rng, 0.0))
 
 
 def part_interp(ctx, n_cases, nmax, n_raw, n_theta, n_bsr):
@@ -1137,7 +1348,7 @@ def part_interp(ctx, n_cases, nmax, n_raw, n_theta, n_bsr):
         if t % 3 == 0:       # strength values with ties for the one-point rule
             ov = _csr(np.where(M, rng.integers(1, 4, size=A.shape) * rng.choice([-1.0, 1.0], size=A.shape), 0.0))
         interp_case(ctx, B, A, M, split, ['matrix:' + kind, 'strength:' + stag, 'split:' + ptag,
-                                          'pattern:' + ('sym' if (M == M.T).all() else 'nonsym')], onept_vals=ov)
+                                          'pattern:' + ('sym' if (M == M.T).all() else 'nonsym')], onept_vals=ov, layout=gen_layout(rng))
     for t in range(n_raw):   # raw kernels on arbitrary CSR (unsorted, duplicates, missing diagonal)
         n = int(rng.integers(1, nmax + 1))
         Ar, _ = gen.rand_dyadic_csr(rng, n, zero_diag=True, unsorted=bool(t % 2), duplicates=bool(t % 3 == 0))
@@ -1160,12 +1371,12 @@ def part_interp(ctx, n_cases, nmax, n_raw, n_theta, n_bsr):
         theta, norm = float(rng.choice(THETAS)), str(rng.choice(['min', 'abs']))
         M = strength_mask(A, theta, norm)
         split, _ = gen_split(rng, A, M)
-        theta_case(ctx, B, A, split, theta, norm, ['matrix:' + kind])
+        theta_case(ctx, B, A, split, theta, norm, ['matrix:' + kind], layout=gen_layout(rng))
     for t in range(n_bsr):
         A, kind = gen_matrix(rng, min(nmax, 10))
         M, _ = gen_strength(rng, A)
         split, _ = gen_split(rng, A, M)
-        bsr_case(ctx, A, M, split, int(rng.integers(2, 4)))
+        bsr_case(ctx, A, M, split, int(rng.integers(2, 4)), layout=gen_layout(rng))
     B.flush()
 
 
@@ -1183,11 +1394,12 @@ def part_air(ctx, n_cases, nmax, n_bsr):
             raw = (A != 0) & (rng.random((n, n)) < 0.7)
             if t % 2:
                 raw &= ~np.eye(n, dtype=bool)
-        air_case(ctx, B, A, _i32(split), theta, norm, 1 + t % 2, ['air-matrix:' + kind], raw_mask=raw)
+        air_case(ctx, B, A, _i32(split), theta, norm, 1 + t % 2, ['air-matrix:' + kind], raw_mask=raw, layout=gen_layout(rng))
     for t in range(n_bsr):
         A, _ = gen_air_matrix(rng, min(nmax, 8))
         n = A.shape[0]
-        air_bsr_case(ctx, A, rng.random(n) < 0.5, float(rng.choice((0.0, 0.25, 0.5))), 1 + t % 2, int(rng.integers(2, 4)))
+        air_bsr_case(ctx, A, rng.random(n) < 0.5, float(rng.choice((0.0, 0.25, 0.5))), 1 + t % 2, int(rng.integers(2, 4)),
+                     layout=gen_layout(rng))
     B.flush()
 
 
@@ -1221,16 +1433,92 @@ def part_rs2(ctx, n_cases, nmax):
         rs2_pipeline(ctx, A, float(rng.choice((0.25, 0.5))), str(rng.choice(['min', 'abs'])))
 
 
+def glue_case(ctx, B, A, Bm, theta, norm, tags):
+    """SciPy glue models vs SciPy on raw CSR matrices A, Bm (same shape)"""
+    from pyamg import amg_core
+    from pyamg.strength import classical_strength_of_connection
+    n = A.shape[0]
+    rowlen = np.diff(A.indptr)
+    dup = any(len(set(A.indices[A.indptr[i]:A.indptr[i + 1]].tolist())) < rowlen[i] for i in range(n))
+    unsorted = any(np.any(np.diff(A.indices[A.indptr[i]:A.indptr[i + 1]]) < 0) for i in range(n))
+    zeros = bool(np.any(A.data == 0))
+    case0 = {'kind': 'glue', 'n': n, 'Ap': A.indptr.tolist(), 'Aj': A.indices.tolist(), 'Ax': A.data.tolist(),
+             'Bp': Bm.indptr.tolist(), 'Bj': Bm.indices.tolist(), 'Bx': Bm.data.tolist(), 'theta': theta, 'norm': norm, 'tags': tags}
+    ctx.case(key=_key('glue', A.indptr.tobytes(), A.indices.tobytes(), A.data.tobytes(), Bm.indptr.tobytes(),
+                      Bm.indices.tobytes(), Bm.data.tobytes(), theta, norm), nontrivial=bool(dup or unsorted or zeros))
+    ctx.feat('routine:glue')
+    for t, f in (('glue:duplicates', dup), ('glue:unsorted', unsorted), ('glue:stored-zeros', zeros)):
+        if f:
+            ctx.feat(t)
+    hA, hB = _hdr(A), _hdr0(Bm)
+
+    def add(op, line, W, exact=True):
+        B.add(op, line, lambda o, W=W, exact=exact: cmp_csr(o, W, exact), {**case0, 'op': op}, _show(W))
+
+    E = _cp(A)
+    E.eliminate_zeros()
+    add('ext_glue_elim', f'ext_glue_elim {hA}', E)
+    if not dup or rowlen.max(initial=0) <= 16:
+        S = _cp(A)
+        S.has_sorted_indices = False
+        S.sort_indices()
+        add('ext_glue_sort', f'ext_glue_sort {hA}', S)
+    D = _cp(A)
+    D.sum_duplicates()
+    add('ext_glue_sumdup', f'ext_glue_sumdup {hA}', D)
+    can = '1' if _cp(A).has_canonical_format else '0'
+    B.add('ext_glue_canon', f'ext_glue_canon {_pat(A)}', lambda o, can=can: o == can, case0, can)
+    D2 = _cp(Bm)
+    D2.sum_duplicates()
+    for X, Y, tag in ((A, Bm, 'raw*raw'), (D, Bm, 'canonical*raw'), (D, D2, 'canonical*canonical'), (E, D2, 'nozeros*canonical')):
+        M = sp.csr_array(_cp(X).multiply(_cp(Y)))
+        ctx.feat('glue:multiply:' + ('canonical-branch' if (_cp(X).has_canonical_format and _cp(Y).has_canonical_format)
+                                     else 'general-branch'))
+        add('ext_glue_mul', f'ext_glue_mul {_hdr(X)} {_hdr0(Y)}', M)
+    O = _cp(A)
+    O.data[:] = 1.0
+    add('ext_glue_ones', f'ext_glue_ones {hA}', O)
+    # tail of classical_strength_of_connection on the rebuilt kernel's output vs the public function
+    Sp, Sj, Sx = np.empty_like(A.indptr), np.empty_like(A.indices), np.empty_like(A.data)
+    kern = amg_core.classical_strength_of_connection_abs if norm == 'abs' else amg_core.classical_strength_of_connection_min
+    kern(n, theta, A.indptr, A.indices, A.data, Sp, Sj, Sx)
+    k = int(Sp[-1])
+    try:
+        Spub = sp.csr_array(classical_strength_of_connection(_cp(A), theta=theta, norm=norm))
+    except Exception as ex:
+        ctx.violation(f'classical_strength_of_connection(theta={theta}, norm={norm!r}) raised {type(ex).__name__}: {ex}', case0)
+        return
+    add('ext_glue_stail', f'ext_glue_stail {TINY64} {n} {enc_ints(Sp)} {enc_ints(Sj[:k])} {enc_rats(Sx[:k])}', Spub, exact=False)
+
+
+def part_glue(ctx, n_cases, nmax):
+    rng = ctx.np_rng
+    B = Batch(ctx)
+    for t in range(n_cases):
+        n = int(rng.integers(1, nmax + 1))
+        mats = []
+        for _ in range(2):
+            X, _f = gen.rand_dyadic_csr(rng, n, zero_diag=True, unsorted=bool(rng.integers(2)), duplicates=bool(rng.integers(2)))
+            X = gen.csr_from_arrays(n, X.indptr, X.indices, np.asarray(X.data, dtype=float))
+            if X.nnz and rng.integers(2):
+                X.data[rng.random(X.nnz) < 0.3] = 0.0
+            mats.append(X)
+        glue_case(ctx, B, mats[0], mats[1], float(rng.choice(THETAS)), str(rng.choice(['min', 'abs'])), ['glue'])
+    B.flush()
+
+
 def run(ctx):
     with guarded_kernels():
         if ctx.quick:
             part_interp(ctx, 300, 12, 80, 80, 30)
-            part_air(ctx, 130, 10, 18)
+            part_air(ctx, 150, 10, 26)
             part_rs2(ctx, 50, 12)
+            part_glue(ctx, 120, 12)
         else:
             part_interp(ctx, 12000, 30, 3000, 2500, 800)
             part_air(ctx, 5000, 20, 600)
             part_rs2(ctx, 3000, 16)
+            part_glue(ctx, 4000, 30)
 
 
 def search(ctx):
@@ -1258,23 +1546,24 @@ def _replay(ctx, data):
             M = np.zeros((n, n), dtype=bool)
             for i in range(n):
                 M[i, S.indices[S.indptr[i]:S.indptr[i + 1]]] = True
-            interp_case(ctx, B, A, M, _i32(case['split']), ['replay'])
+            interp_case(ctx, B, A, M, _i32(case['split']), ['replay'], layout=case.get('layout'))
         else:
             interp_case(ctx, B, None, None, _i32(case['split']), ['replay'], S=S, Acsr=Acsr, api=False)
     elif kind == 'theta':
-        theta_case(ctx, B, np.array(case['A']), _i32(case['split']), case['theta'], case['norm'], ['replay'])
+        theta_case(ctx, B, np.array(case['A']), _i32(case['split']), case['theta'], case['norm'], ['replay'], layout=case.get('layout'))
     elif kind == 'bsr':
-        bsr_case(ctx, np.array(case['A']), np.array(case['M'], dtype=bool), _i32(case['split']), case['bs'])
+        bsr_case(ctx, np.array(case['A']), np.array(case['M'], dtype=bool), _i32(case['split']), case['bs'], layout=case.get('layout'))
     elif kind == 'air':
         rm = case.get('raw_mask')
         air_case(ctx, B, np.array(case['A']), _i32(case['split']), case['theta'], case['norm'], case['degree'], ['replay'],
-                 raw_mask=None if rm is None else np.array(rm, dtype=bool))
+                 raw_mask=None if rm is None else np.array(rm, dtype=bool), layout=case.get('layout'))
     elif kind == 'air_bsr':
         from pyamg.classical import interpolate as IP
         D = np.array(case['D'])
         bs = case['bs']
         Ab = sp.bsr_array(sp.csr_array(D).tobsr(blocksize=(bs, bs)))
         Ab.indptr, Ab.indices = _i32(Ab.indptr), _i32(Ab.indices)
+        Ab = relayout(Ab, case.get('layout'), 'A')
         n = D.shape[0] // bs
         Bn = np.array([[np.abs(D[i * bs:(i + 1) * bs, j * bs:(j + 1) * bs]).max() for j in range(n)] for i in range(n)])
         M = strength_mask(Bn, case['theta'], 'abs')
@@ -1288,6 +1577,11 @@ def _replay(ctx, data):
         rs2_pipeline(ctx, np.array(case['A']), case['theta'], case.get('norm', 'min'))
     elif kind == 'stored_zero':
         stored_zero_probe(ctx)
+    elif kind == 'glue':
+        n = case['n']
+        glue_case(ctx, B, gen.csr_from_arrays(n, case['Ap'], case['Aj'], np.array(case['Ax'], dtype=float)),
+                  gen.csr_from_arrays(n, case['Bp'], case['Bj'], np.array(case['Bx'], dtype=float)), case['theta'], case['norm'],
+                  ['replay'])
     B.flush()
     for v in ctx.violations[:5]:
         print('  ', v['what'])
